@@ -782,6 +782,32 @@ func runC20(c *Ctx) {
 	}
 	scanGets(fd, 0)
 	if marker == "" {
+		// the marker appended instead of set: Header.Add(k, "true") for a header the rewriter reads with Get
+		for _, f := range allFuncDecls(p) {
+			if f.Body == nil {
+				continue
+			}
+			ast.Inspect(f.Body, func(n ast.Node) bool {
+				call, ok := n.(*ast.CallExpr)
+				if !ok || len(call.Args) != 2 {
+					return true
+				}
+				se, ok := call.Fun.(*ast.SelectorExpr)
+				if !ok || se.Sel.Name != "Add" {
+					return true
+				}
+				if t := info.TypeOf(se.X); t == nil || !strings.HasSuffix(t.String(), "net/http.Header") {
+					return true
+				}
+				k, ok1 := constString(info, call.Args[0])
+				v, ok2 := constString(info, call.Args[1])
+				if ok1 && ok2 && v == "true" && len(getTexts[strings.ToLower(k)]) > 0 {
+					c.viol("C20.R3", funcKey(p, f)+"|marker-replaces-what-upstream-sent", c.pos(call.Pos()),
+						fmt.Sprintf("%s marks the response with Header.Add(%q, \"true\") while the rewriter reads the marker with %s: Add appends behind a value the upstream already sent and Get returns the first one, so a response that must pass through untouched (an HTMX partial) is rewritten when the upstream sets that header itself — the marker must be Set", f.Name.Name, k, getTexts[strings.ToLower(k)][0]))
+				}
+				return true
+			})
+		}
 		c.viol("C20.R3", "anchor-lost:marker-set", "", "no header that the rewriter tests is set to \"true\" anywhere in the package: requests that must not be rewritten (HTMX partial responses) cannot be marked")
 	} else {
 		pkgInits := map[types.Object]ast.Expr{}
